@@ -74,18 +74,16 @@ func debugf(rc resolve.Client, pattern string, args ...any) {
 }
 
 type resolver struct {
-	client               resolve.Client
-	markerCache          *lru.Cache[string, marker]
-	constraintCache      *lru.Cache[resolve.VersionKey, *semver.Constraint]
-	prereleaseMatchCache *lru.Cache[resolve.VersionKey, []resolve.Version]
+	client          resolve.Client
+	markerCache     *lru.Cache[string, marker]
+	constraintCache *lru.Cache[resolve.VersionKey, *semver.Constraint]
 }
 
 func NewResolver(rc resolve.Client) resolve.Resolver {
 	return &resolver{
-		client:               rc,
-		markerCache:          lru.New[string, marker](10000),
-		constraintCache:      lru.New[resolve.VersionKey, *semver.Constraint](10000),
-		prereleaseMatchCache: lru.New[resolve.VersionKey, []resolve.Version](10000),
+		client:          rc,
+		markerCache:     lru.New[string, marker](10000),
+		constraintCache: lru.New[resolve.VersionKey, *semver.Constraint](10000),
 	}
 }
 
@@ -101,10 +99,13 @@ func (r *resolver) Resolve(ctx context.Context, vk resolve.VersionKey) (*resolve
 	}
 
 	p := &provider{
-		rc:                   r.client,
-		markerCache:          r.markerCache,
-		constraintCache:      r.constraintCache,
-		prereleaseMatchCache: r.prereleaseMatchCache,
+		rc:              r.client,
+		markerCache:     r.markerCache,
+		constraintCache: r.constraintCache,
+		// Matching versions are the client's data, which may change between
+		// resolutions: unlike parsed markers and constraints they are cached
+		// for one resolution only.
+		prereleaseMatchCache: lru.New[resolve.VersionKey, []resolve.Version](10000),
 		rootPackage:          vk.PackageKey,
 		rootVersion:          vk,
 	}
